@@ -271,6 +271,50 @@ type shExcluded struct {
 	B       string `parser:"@Ident"`
 }
 
+// anonymous embedding several levels deep, several tagged siblings at the innermost level
+type shDeep3 struct {
+	X string `@Ident`
+	Y string `@Int`
+	Z string `@String`
+}
+type shDeep2 struct {
+	shDeep3
+	W string `@Ident`
+}
+type shDeep1 struct {
+	shDeep2
+}
+type shDeep0 struct {
+	shDeep1
+	V string `@Int`
+}
+type shDeepRoot struct {
+	shDeep0
+	U string `@Ident`
+}
+
+// the same innermost struct (several tagged siblings) embedded 3 and 6 levels deep
+type ShE3 struct {
+	X string `(  @Ident`
+	Y string ` | @Int`
+	Z string ` | @String )`
+}
+type ShE2 struct{ ShE3 }
+type ShE1 struct{ ShE2 }
+type shE0 struct {
+	ShE1
+	End string `@";"`
+}
+type ShF5 struct{ ShE3 }
+type ShF4 struct{ ShF5 }
+type ShF3 struct{ ShF4 }
+type ShF2 struct{ ShF3 }
+type ShF1 struct{ ShF2 }
+type shF0 struct {
+	ShF1
+	End string `@";"`
+}
+
 // shape-run: Build on struct shapes; prints "name\toutcome".
 func shapeRun(args []string) error {
 	run := func(name string, f func() error) {
@@ -313,6 +357,43 @@ func shapeRun(args []string) error {
 		v, err := p.ParseString("", "x y")
 		if err != nil || v.A != "x" || v.B != "y" || v.Comment != "" {
 			return fmt.Errorf("excluded field took part in the parse: %+v %v", v, err)
+		}
+		return nil
+	})
+	run("embedded-deep", func() error {
+		p, err := participle.Build[shDeepRoot]()
+		if err != nil {
+			return err
+		}
+		v, err := p.ParseString("", `a 1 "s" b 2 c`)
+		if err != nil || v.X != "a" || v.Y != "1" || v.Z != `"s"` || v.W != "b" || v.V != "2" || v.U != "c" {
+			return fmt.Errorf("fields of deeply embedded structs are mixed up: %+v %v", v, err)
+		}
+		return nil
+	})
+	run("embedded-3-levels", func() error {
+		p, err := participle.Build[shE0]()
+		if err != nil {
+			return err
+		}
+		for in, want := range map[string][3]string{"a;": {"a", "", ""}, "1;": {"", "1", ""}, `"s";`: {"", "", `"s"`}} {
+			v, err := p.ParseString("", in)
+			if err != nil || [3]string{v.X, v.Y, v.Z} != want || v.End != ";" {
+				return fmt.Errorf("fields of an embedded struct are mixed up on %q: %+v %v", in, v, err)
+			}
+		}
+		return nil
+	})
+	run("embedded-6-levels", func() error {
+		p, err := participle.Build[shF0]()
+		if err != nil {
+			return err
+		}
+		for in, want := range map[string][3]string{"a;": {"a", "", ""}, "1;": {"", "1", ""}, `"s";`: {"", "", `"s"`}} {
+			v, err := p.ParseString("", in)
+			if err != nil || [3]string{v.X, v.Y, v.Z} != want || v.End != ";" {
+				return fmt.Errorf("fields of an embedded struct are mixed up on %q: %+v %v", in, v, err)
+			}
 		}
 		return nil
 	})
